@@ -265,6 +265,7 @@ class Sampler:
         self.calls = {}      # (id, seq) -> row
         self.by_id = {}
         self.desc1, self.desc2 = [], []
+        self.index = False
 
     def install(self, adapters, adapters2):
         import cutadapt.adapters as A
@@ -278,7 +279,8 @@ class Sampler:
 
             def rec(sequence, _orig=orig, _i=i):
                 m = _orig(sequence)
-                self.calls[(_i, sequence)] = self.row(_i, sequence, m)
+                if not (self.index and self.indexed_group(_i) is not None):    # (a call from inside an index is not a look-up)
+                    self.calls[(_i, sequence)] = self.row(_i, sequence, m)
                 return m
             single.match_to = rec
             single._verif_orig = orig
@@ -306,8 +308,36 @@ class Sampler:
         r["ae"] = m.astop
         return r
 
+    def indexed_group(self, i):
+        """With indexing on, the members of the index group adapter i is looked up through (else None)."""
+        if not self.index:
+            return None
+        import cutadapt.adapters as A
+        a = self.by_id[i]
+        for side, ds in ((1, self.desc1), (2, self.desc2)):
+            singles = [self.by_id[d["id"]] for d in ds if d["cls"] != "linked"]
+            if not any(x is a for x in singles) or len(singles) != len(ds):
+                continue          # (sets that contain linked adapters are never indexed)
+            for prefix in (True, False):
+                members = [x for x in singles if A.AdapterIndex.is_acceptable(x, prefix=prefix)]
+                if len(members) > 1 and any(x is a for x in members):
+                    return prefix, members
+        return None
+
     def ask(self, i, sequence):
         a = self.by_id[i]
+        grp = self.indexed_group(i)
+        if grp is not None:
+            # R2 for indexed sets: what the index reports is the oracle (whether it is genuine is C08 / C01);
+            # a fresh index per question, so that no state left by earlier look-ups can colour the answer
+            import cutadapt.adapters as A
+            fresh = (A.IndexedPrefixAdapters if grp[0] else A.IndexedSuffixAdapters)(grp[1])
+            m = fresh.match_to(sequence)
+            if m is not None and m.adapter is not a:
+                m = None
+            r = self.row(i, sequence, m)
+            self.calls[(i, sequence)] = r
+            return r
         m = a._verif_orig(sequence)
         r = self.row(i, sequence, m)
         self.calls[(i, sequence)] = r
@@ -332,6 +362,7 @@ def observe_run(C, reads1, reads2, workdir):
         if paired:
             inputs["in2" + ext] = as_bytes(reads2)
     sampler = Sampler()
+    sampler.index = bool(C.get("index"))
     orig_afa = cli.adapters_from_args
 
     def afa(args):
